@@ -142,7 +142,7 @@ def logical_line(draw):
 def shard_g1(sctx, n):
     @seed(sctx.seed)
     @core.hyp_settings(n)
-    @given(line=logical_line(), linelen=st.one_of(st.integers(5, 132), st.sampled_from([20, 40, 72, 132])),
+    @given(line=logical_line(), linelen=st.one_of(st.integers(5, 132), st.sampled_from([20, 40, 72, 132, 0, 0, 1])),
            cont=st.sampled_from(CONTS), indent=st.integers(0, 6),
            spaces=st.sampled_from(["    ", "  "]))
     def prop(line, linelen, cont, indent, spaces):
